@@ -8,12 +8,13 @@ import (
 
 	calctok "github.com/pip-services3-gox/pip-services3-expressions-gox/calculator/tokenizers"
 	"github.com/pip-services3-gox/pip-services3-expressions-gox/csv"
+	sio "github.com/pip-services3-gox/pip-services3-expressions-gox/io"
 	musttok "github.com/pip-services3-gox/pip-services3-expressions-gox/mustache/tokenizers"
 	"github.com/pip-services3-gox/pip-services3-expressions-gox/tokenizers"
 	"github.com/pip-services3-gox/pip-services3-expressions-gox/tokenizers/generic"
 )
 
-var tokKinds = []string{"generic", "expression", "csv", "mustache", "generic-custom", "generic-arrows", "csv-wide", "generic-quotes", "generic-unknownsym", "expression-custom", "generic-2quotes"}
+var tokKinds = []string{"generic", "expression", "csv", "mustache", "generic-custom", "generic-arrows", "csv-wide", "generic-quotes", "generic-unknownsym", "expression-custom", "generic-2quotes", "generic-interned"}
 
 var optNames = []string{"skipUnknown", "skipWhitespaces", "skipComments", "skipEof", "mergeWhitespaces", "unifyNumbers", "decodeStrings"}
 
@@ -46,6 +47,13 @@ func newTokenizer(kind string) tokenizers.ITokenizer {
 		// a second quote state of another type serves one more quote character
 		t := generic.NewGenericTokenizer()
 		t.SetCharacterState('`', '`', calctok.NewExpressionQuoteState())
+		return t
+	case "generic-interned":
+		// a caller-written whitespace state that hands out one shared token object for a line feed
+		t := generic.NewGenericTokenizer()
+		ws := &internedWS{inner: generic.NewGenericWhitespaceState(), lf: tokenizers.NewToken(tokenizers.Whitespace, "\n", 0, 0)}
+		t.SetWhitespaceState(ws)
+		t.SetCharacterState(0, ' ', ws)
 		return t
 	case "generic-unknownsym":
 		// registered symbols that a state itself delivers with the Unknown type
@@ -197,6 +205,23 @@ func execTok(seg []Ev) []Ev {
 	return out
 }
 
+type internedWS struct {
+	inner *generic.GenericWhitespaceState
+	lf    *tokenizers.Token
+}
+
+func (s *internedWS) NextToken(scanner sio.IScanner, tokenizer tokenizers.ITokenizer) *tokenizers.Token {
+	if scanner.Peek() == '\n' {
+		scanner.Read()
+		return s.lf
+	}
+	return s.inner.NextToken(scanner, tokenizer)
+}
+func (s *internedWS) SetWhitespaceChars(from, to rune, enable bool) {
+	s.inner.SetWhitespaceChars(from, to, enable)
+}
+func (s *internedWS) ClearWhitespaceChars() { s.inner.ClearWhitespaceChars() }
+
 var tokCount = 0
 
 func tokRender(ts []*tokenizers.Token) string {
@@ -251,6 +276,7 @@ var tokAlpha = map[string][]rune{
 	"generic-unknownsym": {'a', '?', '!', ' ', '1', '<', 0xffff, '#', '\n'},
 	"expression-custom":  {'a', '1', '-', '>', '=', '.', '<', ' ', '\''},
 	"generic-2quotes":    {'a', '`', '\'', '"', ' ', '1', '\n'},
+	"generic-interned":   {'a', ' ', '\n', '\r', '1', '#'},
 }
 
 // the most significant subset (push-back paths) for deeper exhaustive enumeration
@@ -266,6 +292,7 @@ var tokAlphaCore = map[string][]rune{
 	"generic-unknownsym": {'a', '?', '!', ' ', 0xffff},
 	"expression-custom":  {'a', '1', '-', '>', '='},
 	"generic-2quotes":    {'a', '`', '\'', ' '},
+	"generic-interned":   {'a', ' ', '\n', '\r'},
 }
 
 var tokSnippets = map[string][]string{
@@ -279,6 +306,7 @@ var tokSnippets = map[string][]string{
 	"generic-unknownsym": {"a ? b ?! c !? <= ?", "??!?\uffff?# c\n?"},
 	"expression-custom":  {"a->b => c-- -= -1 - 2 --3 ->> =>= <=> a-b", "x-->y -=- 1e-5 -.5 ->"},
 	"generic-2quotes":    {"a `b``c` 'd' \"e\" `open", "`` ```` `'` '`' x"},
+	"generic-interned":   {"a\nb \n c\n\nd \r\n e", "\n x # c\n\n"},
 	"mustache":           {"Hello, {{Name}}!", "{{#if A}}x{{/if}}{{^B}}y{{/B}}", "{{{raw}}} {{! c }} {{ a b }} {", "{{ 'q' \"r\" }}} }} {{", "a{b{{c}d}}e}}}", "{{#a}}\n{{/a}}\r\n"},
 }
 
